@@ -207,6 +207,18 @@ def run(ctx):
                         if not nan_equal(s1[1][nm].values, want.values):
                             bad = f'select_index: {nm} differs from the stored value at {rows[0]}'
                             break
+            # selectors made for several indexes first and used afterwards: each still selects its own cell
+            if not bad and want_vars:
+                sels = attempt(lambda: [ems.selector_for_index(nat_) for nat_ in natives])
+                if sels[0] == 'ok':
+                    for k_, (sel_, row_) in enumerate(zip(sels[1], rows)):
+                        nm = want_vars[0]
+                        src = ds[nm]
+                        want = src.isel({g: ix for g, ix in zip(gdims, row_) if g in src.dims})
+                        got_ = attempt(lambda: src.isel({str(g_): sel_[g_] for g_ in sel_.variables if str(g_) in src.dims}))
+                        if got_[0] != 'ok' or not nan_equal(numpy.asarray(got_[1].values).reshape(-1), numpy.asarray(want.values).reshape(-1)):
+                            bad = f'selector_for_index: the selector made for index {row_} (request {k_} of {len(rows)}), used after the others were made, does not select that cell'
+                            break
             if bad:
                 ctx.report('property', bad, case)
             elif show_impl_ds(names, out) != mres:
